@@ -45,10 +45,13 @@ Init ==
     running |-> 0, maxRunning |-> 0,
     aliases |-> << >>,      \* alias bindings: [a, topic]
     stops |-> 0, stopProto |-> FALSE, stopError |-> FALSE, stopPeer |-> FALSE,
-    discOut |-> 0, discIn |-> FALSE,
+    discOut |-> 0, discIn |-> FALSE, discInViol |-> FALSE, zeroSei |-> TRUE,
     expectDisc |-> -1,      \* v5: reason code the DISCONNECT must carry (-1 = no expectation)
     appDisc |-> FALSE,      \* the application supplied / asked for its own DISCONNECT
-    connDone |-> FALSE, gateStop |-> FALSE
+    connDone |-> FALSE, gateStop |-> FALSE,
+    ended |-> FALSE,        \* the run is over: what follows is the harness tearing things down
+    router |-> FALSE,       \* the publish service is a topic router with resources "a" and "b"
+    noCtl |-> FALSE         \* the endpoint variant has no observable connection-control service
   ]
 
 Healthy(m) == m.est /\ ~m.term
@@ -97,6 +100,7 @@ OnCfg(m, ev) ==
     [] ev.k = "ack_receive_max" -> [m EXCEPT !.maxReceive = ev.n]
     [] ev.k = "client_receive_max" -> [m EXCEPT !.maxReceive = ev.n]
     [] ev.k = "gate_stop" -> [m EXCEPT !.gateStop = (ev.n # 0)]
+    [] ev.k = "router" -> [m EXCEPT !.router = (ev.n # 0), !.noCtl = (ev.n # 0 /\ m.role = "client")]
     [] OTHER -> m
 
 AddReq(m, kind, id) ==
@@ -151,7 +155,7 @@ OnInSub(m, ev, kind) ==
   ELSE AddReq(m, kind, ev.id)
 
 OnIn(m, ev) ==
-  CASE ev.k = "CONNECT" -> m
+  CASE ev.k = "CONNECT" -> [m EXCEPT !.zeroSei = (ev.x \in {"-1", "0"})]
     [] ev.k = "PUBLISH" -> OnInPublish(m, ev)
     [] ev.k = "PUBREL" -> OnInPubrel(m, ev)
     [] ev.k = "SUBSCRIBE" -> OnInSub(m, ev, "sub")
@@ -160,7 +164,12 @@ OnIn(m, ev) ==
          IF ~Healthy(m) THEN m
          ELSE IF m.role = "client" THEN NeedProto(m, "C16:unexpected-packet-must-end-connection")
          ELSE AddReq(m, "ping", 0)
-    [] ev.k = "DISCONNECT" -> End([m EXCEPT !.discIn = TRUE], "peer")
+    [] ev.k = "DISCONNECT" ->
+         \* ev.n = Session Expiry Interval carried by the packet (-1 = none)
+         LET viol == (m.role = "server" /\ ev.n > 0 /\ m.zeroSei) \/ (m.role = "client" /\ ev.n >= 0) IN
+         IF m.term THEN m
+         ELSE IF viol THEN NeedProto([m EXCEPT !.discIn = TRUE, !.discInViol = TRUE], "C15:disconnect-with-illegal-session-expiry-must-be-a-protocol-error")
+         ELSE End([m EXCEPT !.discIn = TRUE], "peer")
     [] OTHER -> m
 
 ----------------------------------------------------------------------------
@@ -194,6 +203,10 @@ OnHStart(m, ev) ==
          ELSE IF p.topic # ev.x
            THEN Fail(m1, IF p.aliased THEN "C17:handler-saw-wrong-topic" ELSE "C03:handler-saw-wrong-topic")
          ELSE IF p.size # ev.n THEN Fail(m1, "C03:handler-saw-wrong-payload-size")
+         ELSE IF m.router /\ ev.r >= 16
+                 /\ (ev.r \div 16) - 1 # (CASE p.topic = "a" -> 1 [] p.topic = "b" -> 2 [] OTHER -> 0)
+                 /\ ~(m.role = "client" /\ p.topic \notin {"a", "b"})
+           THEN Fail(m1, "C17:routed-to-wrong-resource")
          ELSE IF m.role = "server" /\ m.ver = 3 /\ m.maxReceive > 0 /\ run > m.maxReceive /\ Healthy(m)
            THEN Fail(m1, "C12:more-concurrent-handlers-than-max-receive")
          ELSE m1
@@ -316,7 +329,7 @@ OnOutDisconnect(m, ev) ==
   LET m1 == End([m EXCEPT !.discOut = @ + 1], "local") IN
   IF m.ver # 5 THEN m1
   ELSE IF m.discOut >= 1 THEN Fail(m1, "C15:second-disconnect-written")
-  ELSE IF m.discIn /\ ~(m.stopProto \/ m.needProto) THEN Fail(m1, "C15:disconnect-written-after-peers-disconnect")
+  ELSE IF m.discIn /\ ~m.discInViol THEN Fail(m1, "C15:disconnect-written-after-peers-disconnect")
   ELSE IF m.expectDisc >= 0 /\ ~m.appDisc /\ ev.r # m.expectDisc THEN Fail(m1, "C15:disconnect-does-not-name-the-cause")
   ELSE IF (m.cause \in {"proto", "error"} \/ m.needProto) /\ ~m.appDisc /\ ev.r = 0
     THEN Fail(m1, "C15:error-reported-as-normal-disconnection")
@@ -353,7 +366,9 @@ OnCtl(m, ev) ==
 \* final{s: gates still open, n: bytes the endpoint has not read}: every gate the harness could
 \* open was opened with outcome ok, to a fixpoint
 OnFinal(m, ev) ==
-  IF m.needProto /\ ~m.stopProto /\ m.est /\ m.cause \in {"none", "proto"} /\ ev.s = 0
+  IF m.needProto /\ m.noCtl /\ m.est /\ ev.s = 0
+    THEN (IF m.connDone THEN m ELSE Fail(m, m.needWhy))
+  ELSE IF m.needProto /\ ~m.stopProto /\ m.est /\ m.cause \in {"none", "proto"} /\ ev.s = 0
     THEN \* (an error result may wait in the ordered response queue until the handlers ahead
          \*  of it complete: the protocol-error stop is due once every gate was opened)
          Fail(m, m.needWhy)
@@ -378,6 +393,8 @@ OnFinal(m, ev) ==
 
 Step(m, ev) ==
   CASE ev.e = "reset" -> [Init EXCEPT !.ver = ev.q, !.role = ev.x]
+    [] m.ended -> m
+    [] ev.e = "end" -> End([m EXCEPT !.ended = TRUE], "peer")
     [] ev.e = "cfg" -> OnCfg(m, ev)
     [] ev.e = "in" -> OnIn(m, ev)
     [] ev.e = "out" -> OnOut(m, ev)
@@ -392,6 +409,13 @@ Step(m, ev) ==
     [] ev.e \in {"peer_close", "io_err", "end"} -> End(m, "peer")
     [] ev.e = "close" -> End([m EXCEPT !.appDisc = TRUE], "local")
     [] ev.e = "expect_disc" -> [m EXCEPT !.expectDisc = ev.n]
+    [] ev.e = "cause" ->
+         \* the generator is about to inject an error to which MQTT 5 assigns a dedicated code
+         IF m.term \/ m.appDisc \/ m.expectDisc >= 0 \/ m.needProto THEN m
+         ELSE [m EXCEPT !.expectDisc =
+                 CASE ev.k = "keepalive" -> 141 [] ev.k = "toolarge" -> 149 [] ev.k = "recvmax" -> 147
+                   [] ev.k = "qos" -> 155 [] ev.k = "retain" -> 154 [] ev.k = "subid" -> 161
+                   [] ev.k = "alias" -> 148 [] OTHER -> -1]
     [] ev.e = "app_disc" -> [m EXCEPT !.appDisc = TRUE]
     [] OTHER -> m
 
